@@ -123,6 +123,7 @@ type lRun struct {
 	c08   *c08Tracer
 	c02   *c02Tracer
 	c11   *c11Tracer
+	c09   *c09Tracer
 }
 
 func (x *lRun) fail(sig, detail string) {
@@ -656,6 +657,9 @@ func (x *lRun) block(dt int64) bool {
 	if x.c11 != nil {
 		x.c11.step()
 	}
+	if x.c09 != nil {
+		x.c09.step()
+	}
 	x.invariants(fmt.Sprintf("after block %d", x.w.Height))
 	return true
 }
@@ -690,6 +694,9 @@ func runLedgerHistory(t *testing.T, col *Collector, prop string, h lHist) {
 	}
 	if prop == "C11" {
 		x.c11 = newC11Tracer(x)
+	}
+	if prop == "C09" {
+		x.c09 = newC09Tracer(x)
 	}
 	for k, op := range h.Ops {
 		x.step = k
@@ -732,6 +739,9 @@ func runLedgerHistory(t *testing.T, col *Collector, prop string, h lHist) {
 		if x.c11 != nil {
 			x.c11.step()
 		}
+		if x.c09 != nil {
+			x.c09.step()
+		}
 		col.Op(op.Op, res.Kind(), amt)
 		fmt.Fprintf(&x.fp, "%s:%s;", op.Op, res.Kind())
 		if res.OK() {
@@ -755,6 +765,15 @@ func runLedgerHistory(t *testing.T, col *Collector, prop string, h lHist) {
 	}
 	if x.c11 != nil {
 		col.Case(h.ID, x.c11.caseText(h.ID))
+	}
+	if x.c09 != nil {
+		col.Case(h.ID, x.c09.caseText(h.ID))
+		col.mu.Lock()
+		n, _ := col.rep.Extra["mtps_created"].(int)
+		col.rep.Extra["mtps_created"] = n + x.c09.news
+		n2, _ := col.rep.Extra["mtps_destroyed"].(int)
+		col.rep.Extra["mtps_destroyed"] = n2 + x.c09.dels
+		col.mu.Unlock()
 	}
 	if x.c02 != nil {
 		col.Case(h.ID, x.c02.caseText(h.ID))
@@ -819,6 +838,9 @@ func runLedger(t *testing.T, prop string) {
 		footer = "Definition M := Eval vm_compute in mismatches cases.\nPrint M.\n"
 	case "C11":
 		header = "From Coq Require Import ZArith List Bool.\nFrom Elys Require Import Base.Res Models.AccPool Run.AccPoolRun.\nImport ListNotations.\nOpen Scope Z_scope.\n"
+		footer = "Definition M := Eval vm_compute in mismatches cases.\nPrint M.\n"
+	case "C09":
+		header = "From Coq Require Import ZArith List Bool.\nFrom Elys Require Import Base.Res Base.Fn Models.SumLedger Models.PerpLedger Run.PerpLedgerRun.\nImport ListNotations.\nOpen Scope Z_scope.\n"
 		footer = "Definition M := Eval vm_compute in mismatches cases.\nPrint M.\n"
 	case "C08":
 		header = "From Coq Require Import ZArith List Bool.\nFrom Elys Require Import Base.Res Base.Fn Models.SumLedger Models.LevLedger Run.LevLedgerRun.\nImport ListNotations.\nOpen Scope Z_scope.\n"
